@@ -1048,6 +1048,96 @@ func (c *Ctx) ruleStatefulInBuild() {
 			return true
 		})
 	}
+	// a module function that keeps the sample of a stateful call in a once-only memo (the serialisers' way of taking
+	// it) is as stateful for whoever calls it first: a call of it from the build phases takes the sample early, at a
+	// moment that depends on what was built before
+	memoFns := map[*types.Func]bool{}
+	for _, f := range c.libFns() {
+		pk := f.Pkg
+		inspectWithStack(f.Decl.Body, func(nd ast.Node, stack []ast.Node) bool {
+			call, ok := nd.(*ast.CallExpr)
+			if !ok {
+				return true
+			}
+			cal := callee(pk, call)
+			if cal == nil {
+				return true
+			}
+			if _, ok := classes[cal.FullName()]; !ok {
+				return true
+			}
+			for i := len(stack) - 1; i >= 1; i-- {
+				if fl, isLit := stack[i].(*ast.FuncLit); isLit {
+					if oc, isCall := stack[i-1].(*ast.CallExpr); isCall && len(oc.Args) == 1 && oc.Args[0] == ast.Expr(fl) && isStdOnceDo(callee(pk, oc)) {
+						memoFns[f.Obj] = true
+					}
+				}
+			}
+			return true
+		})
+	}
+	// the functions of the build phases, not looking into the memo functions
+	buildReach := map[*types.Func]bool{}
+	var work []*Fn
+	for _, ph := range c.pipelinePhases() {
+		if !buildReach[ph.Obj] {
+			buildReach[ph.Obj] = true
+			work = append(work, ph)
+		}
+	}
+	for _, h := range c.dispatchTable() { // the per-directive handlers are reached through the dispatch table
+		if hf := c.fnOf(h); hf != nil && !buildReach[h] {
+			buildReach[h] = true
+			work = append(work, hf)
+		}
+	}
+	for len(work) > 0 {
+		f := work[0]
+		work = work[1:]
+		ast.Inspect(f.Decl.Body, func(nd ast.Node) bool {
+			var m *types.Func
+			switch x := nd.(type) {
+			case *ast.CallExpr:
+				m = callee(f.Pkg, x)
+			case *ast.SelectorExpr:
+				m, _ = f.Pkg.TypesInfo.Uses[x.Sel].(*types.Func)
+			}
+			if m != nil {
+				m = m.Origin()
+				if c.P.IsLibPkg(m.Pkg()) && !buildReach[m] && !memoFns[m] {
+					if g := c.fnOf(m); g != nil {
+						buildReach[m] = true
+						work = append(work, g)
+					}
+				}
+			}
+			return true
+		})
+	}
+	for _, f := range c.libFns() {
+		if !buildReach[f.Obj] || memoFns[f.Obj] {
+			continue
+		}
+		pk := f.Pkg
+		ast.Inspect(f.Decl.Body, func(nd ast.Node) bool {
+			call, ok := nd.(*ast.CallExpr)
+			if !ok {
+				return true
+			}
+			cal := callee(pk, call)
+			if cal == nil || !memoFns[cal] || !c.P.IsLibPkg(cal.Pkg()) {
+				return true
+			}
+			g := c.fnOf(cal)
+			if g == nil {
+				return true
+			}
+			n++
+			key := fmt.Sprintf("%s | %s", f.Name(), exprString(call.Fun))
+			r.Bad("C15-STATEFUL-IN-BUILD", key, "a function of the build phases calls "+prog.FuncName(cal)+", which takes (and keeps) the next sample of a stateful example generator: how many samples were drawn before depends on the blocks that were built earlier, so the kept example changes when independent blocks are swapped", c.pos(call.Pos()))
+			return true
+		})
+	}
 	if n == 0 {
 		r.Ok("C15-STATEFUL-IN-BUILD", "library", "no such call outside a once-only memo", "")
 	}
